@@ -131,6 +131,35 @@ func TestRegLdiffRemoteNeverConverges(t *testing.T) {
 	reg(t, Case{Target: "ldiff", Ins: ins})
 }
 
+// Latent hazard (not reachable today): AclState.applyReadKeyChange ignores the error of
+// PubKeyFromProto(accKey.Identity) and calls st.pubKey.Equals(nil). Under the fully validating
+// verifier validateReadKeyChange rejects an undecodable identity first; under a non-validating
+// verifier the record builder always decodes with keep-only-our-identity, which drops every entry
+// whose identity does not decode. These cases pin that: garbage / empty / wrong-key-type identities
+// in AccountKeys and InviteKeys of a ReadKeyChange and of an AccountRemove, every entry point,
+// every local identity. sens/s17 shows the panic appears as soon as the partial decoder is bypassed.
+func TestRegGarbageIdentityInKeyLists(t *testing.T) {
+	for fix := uint64(0); fix < 3; fix++ {
+		var ins []In
+		for base := 0; base < 4; base++ {
+			for a := 0; a < 2; a++ {
+				for b := 0; b < 5; b++ {
+					ins = append(ins, In{Base: base, Kind: "bad-identity-entry", A: a, B: b, C: 0}, In{Base: base, Kind: "bad-identity-entry", A: a, B: b, C: 1})
+				}
+			}
+			for b := 0; b < 23; b++ {
+				ins = append(ins, In{Base: base, Kind: "wrong-key-type", A: 4, B: b, C: b}, In{Base: base, Kind: "wrong-key-type", A: 8, B: b}, In{Base: base, Kind: "wrong-key-type", A: 3, B: b})
+			}
+		}
+		for _, base := range []int{96, 97} {
+			for b := 0; b < 5; b++ {
+				ins = append(ins, In{Base: base, Kind: "bad-identity-entry", A: b, B: b, C: b})
+			}
+		}
+		reg(t, Case{Target: "acl", Fix: fix, Ins: ins})
+	}
+}
+
 // Harness self-check: fixtures are a function of the code (two builds give the same valid
 // messages), and every valid message is accepted by the entry point it was made for.
 func TestRegFixturesReproducibleAndValid(t *testing.T) {
